@@ -11,19 +11,27 @@ def gen_script(rng, maxsel=4, maxwork=10, allow_reinit=True):
     """One context's script: list of 'item args' strings, ending in PROBE <layers>.
     Also returns the reference script: the last selection of every probed layer + the probe."""
     steps = ['RESEED ' + rng.bytes(8).hex()]
-    l1 = l2 = l3 = None       # the selection line currently in force per layer
+    l0 = l1 = l2 = l3 = None  # the selection line currently in force per layer (l0: field-only selection)
     nsel = rng.randint(1, maxsel)
     for si in range(nsel):
         # ---- a selection (or a failed one, or a re-initialisation)
-        r = rng.below(100)
-        if r < 38:
+        r = rng.below(112)
+        if r >= 100:
+            # a field-only selection: curve and pairing layers above it become stale by contract
+            l0 = 'FPSET ' + rng.choice(['NIST_256', 'BSI_256', 'SECG_256', 'SM2_256', 'BN_256', 'SM9_256', 'any', 'tower'])   # not 'dense': it draws a random prime from the generator
+            l1 = l2 = None
+            steps.append(l0)
+        elif r < 38:
+            l0 = None
             l1 = 'EPSET ' + rng.choice(CURVES)
             l2 = None                                       # a pairing stack from before is stale by contract
             steps.append(l1)
         elif r < 58:
+            l0 = None
             l1 = l2 = 'PCANY'
             steps.append('PCANY')
         elif r < 68:
+            l0 = None
             l1 = 'EPANY ' + rng.choice(['plain', 'endom', 'ec', 'any'])
             l2 = None
             steps.append(l1)
@@ -38,7 +46,7 @@ def gen_script(rng, maxsel=4, maxwork=10, allow_reinit=True):
         elif allow_reinit:
             steps.append('REINIT')
             steps.append('RESEED ' + rng.bytes(8).hex())
-            l1 = l2 = l3 = None
+            l0 = l1 = l2 = l3 = None
         # ---- work that touches caches and derived constants of what is selected
         for _ in range(rng.randint(0, maxwork)):
             pool = [('W_FAIL %d' % rng.below(3), 6), ('GETCODE', 8), ('RAND', 4), ('W_THROWOUT', 2)]
@@ -54,19 +62,19 @@ def gen_script(rng, maxsel=4, maxwork=10, allow_reinit=True):
             steps.append(it)
             if it == 'W_THROWOUT':
                 steps.append('CLRERR')
-    layers = ('1' if l1 else '') + ('2' if l2 else '') + ('3' if l3 else '')
+    layers = ('0' if (l0 and not l1) else '') + ('1' if l1 else '') + ('2' if l2 else '') + ('3' if l3 else '')
     steps.append('CLRERR')
     ref = ['RESEED 00']
     if layers:
         steps.append('PROBE ' + layers)
         seen = []
-        for sel in (l1, l2, l3):
+        for sel in ((l0 if not l1 else None), l1, l2, l3):
             if sel and sel not in seen:
                 seen.append(sel)
                 ref.append(sel)
         ref.append('CLRERR')
         ref.append('PROBE ' + layers)
-    last = (l2 or l1 or l3 or 'none')
+    last = (l2 or l1 or l0 or l3 or 'none')
     return steps, ref, last
 
 
@@ -130,7 +138,7 @@ def _split(tr):
 
 
 def _probe_lines(lines):
-    return [l for l in lines if l[:2] in ('P1', 'P2', 'P3')]
+    return [l for l in lines if l[:2] in ('P0', 'P1', 'P2', 'P3')]
 
 
 def _first_diff_field(a, b):
@@ -155,7 +163,7 @@ def check(plan, transcript, config, opts, refs=None):
         idx += 2
         mine = got.get(i, [])
         out.evals += len(mine)
-        sels = [s.split()[0] for s in sc[i] if s.split()[0] in ('EPSET', 'PCANY', 'EPANY', 'EBSET', 'REINIT')]
+        sels = [s.split()[0] for s in sc[i] if s.split()[0] in ('FPSET', 'EPSET', 'PCANY', 'EPANY', 'EBSET', 'REINIT')]
         out.keys.add(('script', tuple(sels), last.get(i)))
         for a, b in zip(sels, sels[1:]):
             out.keys.add(('pair', a, b))
